@@ -132,13 +132,17 @@ def compare_motif(got, exp, k):
     return None
 
 
+def sources_for(ctx):
+    return SOURCES if ctx.quick() else SOURCES + ["short2", "short3", "short13", "short100"]
+
+
 def generated_cases(ctx):
     for fmt in ("jaspar", "jaspar16", "transfac", "uniprobe"):
         for protein in (False, True):
             if protein and fmt == "jaspar":
                 continue
             for label, recs in record_sets(fmt, protein):
-                for src in SOURCES:
+                for src in sources_for(ctx):
                     yield {"kind": "load", "mode": "generated", "format": fmt, "protein": protein, "label": label,
                            "records": [r.to_json() for r in recs], "source": src}
 
@@ -221,7 +225,7 @@ def run(ctx, rep):
     rep.space("load", "lightmotif.load(source, format, protein=): files written by the checker's own JASPAR / JASPAR16 / TRANSFAC / UniPROBE writers "
               "(record sets of 1 and 3 motifs, widths 1/2/7/25, 3-4 decoration styles, symbol columns in 1-3 orders, all-distinct / sparse / 99999 cells, "
               "optional metadata present/absent, DNA and protein) x 7 sources (str path, pathlib.Path, bytes path, BytesIO, objects returning <= 1 / 7 / 4096 "
-              "bytes per read): number of motifs, class, name / id / accession / description, counts, weights and log2 scores against what was written; "
+              "(thorough: also 2 / 3 / 13 / 100) bytes per read): number of motifs, class, name / id / accession / description, counts, weights and log2 scores against what was written; "
               "bundled files of lightmotif-io/tests and the texts of lightmotif-py test_load (thorough: + JASPAR2024.pwm, prodoric.transfac): the 7 sources must "
               "agree exactly; one evaluation = one (file, source) load; non-trivial = all")
     tmpdir = tempfile.mkdtemp(prefix="vx-c17-")
@@ -236,7 +240,7 @@ def run(ctx, rep):
             check_generated(rep, case, tmpdir)
             rep.eval()
             if i % 389 == 11:
-                rep.sample(dict(case, records=case["records"][:1]), per_space=2)
+                rep.sample(dict(case, records=case["records"][:1]), per_space=1)
         for j, (label, fmt, data, length, first) in enumerate(bundled_files(ctx)):
             if not ctx.mine(i + 1 + j):
                 continue
